@@ -106,9 +106,12 @@ func TestC07Exhaustive(t *testing.T) {
 func TestC07Random(t *testing.T) {
 	sec := stats.Sec("random", ruleRandom)
 	maxOps := stats.EnvInt("C07_MAXOPS", 25)
-	ets := []string{"A", "B"}
-	ids := []string{"n", "m", "s"}
-	typeOf := map[string]int{"n": fmtT, "m": int(eventlogger.NodeTypeFormatterFilter), "s": sinkT}
+	// families of names that are distinct strings but collide under careless normalisation (surrounding white space,
+	// case, a separator moved between event type and pipeline id)
+	ets := []string{"A", "B", "A/x", "A "}
+	ids := []string{"n", "m", "s", "n ", "S"}
+	typeOf := map[string]int{"n": fmtT, "m": int(eventlogger.NodeTypeFormatterFilter), "s": sinkT, "n ": fmtT, "S": sinkT}
+	pidPool := []string{"p", "q", "p", "q", "x/p", "p ", " p", "P"}
 	opGen := rapid.Custom(func(t *rapid.T) model.Op {
 		switch rapid.SampledFrom([]int{0, 0, 0, 1, 1, 1, 2, 3, 4}).Draw(t, "k") {
 		case 0:
@@ -116,17 +119,17 @@ func TestC07Random(t *testing.T) {
 			return model.Op{K: "regnode", N: id, NT: typeOf[id], Pol: rapid.IntRange(0, 3).Draw(t, "pol"), Dress: rapid.SampledFrom([]int{0, 0, 1, 2, 3, 4}).Draw(t, "dress"), Reuse: rapid.IntRange(0, 3).Draw(t, "reuse") == 0,
 				Shape: rapid.SampledFrom([]int{0, 0, 1, 2, 3, 4, 5}).Draw(t, "shape"), CloseErr: rapid.IntRange(0, 3).Draw(t, "closeErr") == 0, CloseKind: rapid.IntRange(0, 2).Draw(t, "closeKind")}
 		case 1:
-			f := rapid.SampledFrom([]string{"n", "m"}).Draw(t, "f")
-			pids := []string{f, "s"}
+			f := rapid.SampledFrom([]string{"n", "m", "n "}).Draw(t, "f")
+			pids := []string{f, rapid.SampledFrom([]string{"s", "s", "S"}).Draw(t, "sinkID")}
 			if rapid.IntRange(0, 3).Draw(t, "listedTwice") == 0 {
-				pids = []string{f, f, "s"} // a node id may be listed more than once
+				pids = []string{f, f, pids[1]} // a node id may be listed more than once
 			}
-			return model.Op{K: "regpipe", ET: rapid.SampledFrom(ets).Draw(t, "et"), P: rapid.SampledFrom([]string{"p", "q"}).Draw(t, "p"),
+			return model.Op{K: "regpipe", ET: rapid.SampledFrom(ets).Draw(t, "et"), P: rapid.SampledFrom(pidPool).Draw(t, "p"),
 				IDs: pids, Pol: rapid.IntRange(0, 3).Draw(t, "ppol"), Dress: rapid.SampledFrom([]int{0, 0, 1, 2, 3, 4}).Draw(t, "pdress")}
 		case 2:
-			return model.Op{K: "rmpipe", ET: rapid.SampledFrom(ets).Draw(t, "et"), P: rapid.SampledFrom([]string{"p", "q"}).Draw(t, "p")}
+			return model.Op{K: "rmpipe", ET: rapid.SampledFrom(ets).Draw(t, "et"), P: rapid.SampledFrom(pidPool).Draw(t, "p")}
 		case 3:
-			return model.Op{K: "rpan", ET: rapid.SampledFrom(ets).Draw(t, "et"), P: rapid.SampledFrom([]string{"p", "q"}).Draw(t, "p"), CtxDone: rapid.IntRange(0, 3).Draw(t, "ctxDone") == 0}
+			return model.Op{K: "rpan", ET: rapid.SampledFrom(ets).Draw(t, "et"), P: rapid.SampledFrom(pidPool).Draw(t, "p"), CtxDone: rapid.IntRange(0, 3).Draw(t, "ctxDone") == 0}
 		default:
 			return model.Op{K: "rmnode", N: rapid.SampledFrom(ids).Draw(t, "n"), CtxDone: rapid.IntRange(0, 2).Draw(t, "ctxDone") == 0}
 		}
